@@ -675,4 +675,56 @@ theorem scatter_eq_idxOf (order : List Nat) (N : Nat) (hnd : order.Nodup) :
     have h2 : ((List.range N).map (fun i => order.idxOf i))[i]? = none := List.getElem?_eq_none (by simp; omega)
     rw [h1, h2]; simp
 
+/-! ### positions as counts -/
+
+/-- in a duplicate-free list exactly `min v (length)` elements sit at a position `< v` -/
+theorem countP_idxOf_lt : ∀ (l : List Nat), l.Nodup → ∀ (v : Nat),
+    l.countP (fun i => decide (l.idxOf i < v)) = min v l.length
+  | [], _, v => by simp
+  | x :: xs, hnd, v => by
+    obtain ⟨hx, hnd'⟩ := List.nodup_cons.mp hnd
+    rw [List.countP_cons]
+    have hrest : xs.countP (fun i => decide ((x :: xs).idxOf i < v)) = xs.countP (fun i => decide (xs.idxOf i < v - 1)) := by
+      apply List.countP_congr
+      intro i hi
+      have hne : (x == i) = false := by
+        simp only [beq_eq_false_iff_ne, ne_eq]; intro h; exact hx (h ▸ hi)
+      simp only [List.idxOf_cons, hne, cond_false, decide_eq_true_eq]
+      omega
+    rw [hrest, countP_idxOf_lt xs hnd' (v - 1)]
+    simp only [List.idxOf_cons_self, List.length_cons]
+    by_cases hv : 0 < v
+    · simp only [hv, decide_true, if_true]; omega
+    · have : v = 0 := by omega
+      subst this; simp
+
+theorem idxOf_flatten_eq : ∀ (L : List (List Nat)), L.flatten.Nodup → ∀ (b : Nat) (lb : List Nat),
+    L[b]? = some lb → ∀ i, i ∈ lb → L.flatten.idxOf i = sumLengths (L.take b) + lb.idxOf i
+  | [], _, b, lb, h, _, _ => by simp at h
+  | l :: ls, hnd, b, lb, hb, i, hi => by
+    simp only [List.flatten_cons] at hnd ⊢
+    obtain ⟨_, hnd2, hdis⟩ := List.nodup_append.mp hnd
+    cases b with
+    | zero =>
+      simp at hb; subst hb
+      rw [List.idxOf_append, if_pos hi]
+      simp [sumLengths]
+    | succ b =>
+      simp only [List.getElem?_cons_succ] at hb
+      have hif : i ∈ ls.flatten := List.mem_flatten.mpr ⟨lb, List.mem_of_getElem? hb, hi⟩
+      have hil : i ∉ l := fun h => hdis i h i hif rfl
+      rw [List.idxOf_append, if_neg hil, idxOf_flatten_eq ls hnd2 b lb hb i hi, List.take_succ_cons,
+        sumLengths_cons]
+      omega
+
+theorem forall₂_sumLengths_take {L S : List (List Nat)} (h : List.Forall₂ List.Perm L S) :
+    ∀ b, sumLengths (L.take b) = sumLengths (S.take b) := by
+  induction h with
+  | nil => intro b; simp
+  | cons hp _ ih =>
+    intro b
+    cases b with
+    | zero => simp
+    | succ b => simp only [List.take_succ_cons, sumLengths_cons, ih b, hp.length_eq]
+
 end SyneTune
